@@ -424,7 +424,12 @@ pub fn accepts(prop: &str, v: &Viol, ops: &[OpRec]) -> bool {
         // (a value that was received or handed back AND destroyed by the library has two fates)
         "C01" => in_list(&["dup_recv", "recv_after_failed_send", "lost_value", "corrupt_value", "drop_of_unknown_value", "double_drop"]),
         "C02" => in_list(&["fifo", "receiver_order"]),
-        "C04" => in_list(&["corrupt_value", "drop_of_unknown_value", "race"]),
+        "C04" => {
+            in_list(&["corrupt_value", "drop_of_unknown_value", "race"])
+                // a zero-sized value has no bits to compare: the only way to receive a stale one is
+                // to receive a value whose destructor has already run
+                || (p == "double_drop" && opk.is_none() && v.detail.starts_with("zero-sized payloads"))
+        }
         "C05" => in_list(LEDGER_ALL),
         "C06" => in_list(PROGRESS),
         "C07" => in_list(MEMORY),
